@@ -48,6 +48,7 @@ impl Hasher for CHasher {
     }
     fn finish(&self) -> u64 {
         HASHES.with(|c| c.set(c.get() + 1));
+        callback(Cb::HashK);
         self.0.finish()
     }
 }
@@ -96,7 +97,7 @@ struct Mirror<K, V> {
 }
 
 fn esize<T: Inst>(k: &T::K, v: &T::V) -> usize {
-    std::mem::size_of::<Mirror<T::K, T::V>>() + k.heap_size() + v.heap_size()
+    quiet(|| std::mem::size_of::<Mirror<T::K, T::V>>() + k.heap_size() + v.heap_size())
 }
 
 /// plain value (no drop glue) whose size estimate is not constant
@@ -108,11 +109,13 @@ pub struct View {
 /// the tag count how often the instance was cloned
 impl Clone for View {
     fn clone(&self) -> View {
+        callback(Cb::CloneV);
         View { tag: self.tag + 1, len: self.len }
     }
 }
 impl HeapSize for View {
     fn heap_size(&self) -> usize {
+        callback(Cb::HeapV);
         self.len
     }
 }
@@ -436,6 +439,11 @@ pub enum IOp {
     Drain(u8),
     /// drain(), take n items from the front, mem::forget the iterator
     DrainForget(u8),
+    /// consume the cache through into_iter (0) / into_keys (1) / into_values (2)
+    /// under pattern 0: front only, 1: back only, 2: alternating from the back,
+    /// stopping after len/2 + 1 items; two calls past exhaustion when everything
+    /// was taken; the exploration continues on a fresh cache with the same limit
+    Owning(u8, u8),
 }
 
 fn alphabet<T: Inst>() -> Vec<IOp> {
@@ -472,6 +480,11 @@ fn alphabet<T: Inst>() -> Vec<IOp> {
     a.push(IOp::Drain(1));
     a.push(IOp::DrainForget(0));
     a.push(IOp::DrainForget(1));
+    for kind in 0..3 {
+        for pat in 0..3 {
+            a.push(IOp::Owning(kind, pat));
+        }
+    }
     a
 }
 
@@ -746,7 +759,9 @@ impl<T: Inst> Run<T> {
                 let act = match T::with_q(k, |q| {
                     c.mutate(q, |v| {
                         *calls += 1;
+                        callback(Cb::MutPre);
                         T::resize(v, s);
+                        callback(Cb::MutPost);
                         77u32
                     })
                 }) {
@@ -808,6 +823,7 @@ impl<T: Inst> Run<T> {
                 let seen = &mut self.pred_seen;
                 self.c.retain(|k, _| {
                     let id = T::kid(k);
+                    callback(Cb::Pred);
                     seen.push(id);
                     if i < 3 {
                         masks[i as usize].checked_shr(id).unwrap_or(0) & 1 == 1
@@ -860,6 +876,9 @@ impl<T: Inst> Run<T> {
                 self.cloned = true;
                 let p0 = hashes();
                 let other = if self.hk == HK::Const { HK::Spread } else { HK::Const };
+                let saved_fuel = fuel();
+                set_fuel(None);
+                let saved_counts = counts();
                 let mut target: LruCache<T::K, T::V, T::S> = match t {
                     0 => T::mk(0, None, self.hk),
                     1 => {
@@ -877,6 +896,8 @@ impl<T: Inst> Run<T> {
                     }
                     _ => T::mk(usize::MAX, Some(self.c.len() / 2), self.hk),
                 };
+                let _ = saved_counts;
+                set_fuel(saved_fuel);
                 if T::CLONE_BUMPS {
                     self.m.l.iter_mut().for_each(|x| x.tag += 1);
                 }
@@ -910,6 +931,61 @@ impl<T: Inst> Run<T> {
                         // stop half way for pattern 1: the rest is dropped by the iterator
                         if pat == 1 && i + 1 >= (n + 1) / 2 {
                             break;
+                        }
+                    }
+                }
+                (R::Drained(act), R::Drained(exp))
+            }
+            IOp::Owning(kind, pat) => {
+                self.zero_hash_op = true;
+                let fresh = T::mk(limit, None, self.hk);
+                let old = std::mem::replace(&mut self.c, fresh);
+                let mut rest: std::collections::VecDeque<RE> = self.m.l.drain(..).collect();
+                let n = rest.len();
+                let take = if pat == 2 { n / 2 + 1 } else { n + 2 };
+                let mut exp: Vec<(u32, u32)> = vec![];
+                let mut act: Vec<(u32, u32)> = vec![];
+                const NONE: (u32, u32) = (u32::MAX, u32::MAX);
+                let front = |i: usize| match pat {
+                    0 => true,
+                    1 => false,
+                    _ => i % 2 == 1,
+                };
+                for i in 0..take {
+                    let x = if front(i) { rest.pop_front() } else { rest.pop_back() };
+                    exp.push(match (kind, x) {
+                        (_, None) => NONE,
+                        (0, Some(x)) => (x.id, x.tag),
+                        (1, Some(x)) => (x.id, 0),
+                        (_, Some(x)) => (0, x.tag),
+                    });
+                }
+                match kind {
+                    0 => {
+                        let mut it = old.into_iter();
+                        for i in 0..take {
+                            act.push(match if front(i) { it.next() } else { it.next_back() } {
+                                None => NONE,
+                                Some((k, v)) => (T::kid(&k), T::vtag(&v)),
+                            });
+                        }
+                    }
+                    1 => {
+                        let mut it = old.into_keys();
+                        for i in 0..take {
+                            act.push(match if front(i) { it.next() } else { it.next_back() } {
+                                None => NONE,
+                                Some(k) => (T::kid(&k), 0),
+                            });
+                        }
+                    }
+                    _ => {
+                        let mut it = old.into_values();
+                        for i in 0..take {
+                            act.push(match if front(i) { it.next() } else { it.next_back() } {
+                                None => NONE,
+                                Some(v) => (0, T::vtag(&v)),
+                            });
                         }
                     }
                 }
@@ -957,6 +1033,7 @@ fn owner(op: IOp) -> Props {
         IOp::CloneSwap | IOp::CloneFrom(_) => p(14),
         IOp::Drain(_) => p(12),
         IOp::DrainForget(_) => p(17),
+        IOp::Owning(..) => p(12) | p(6),
     }
 }
 
@@ -965,6 +1042,7 @@ pub struct InstResult {
     pub sequences: u64,
     pub steps: u64,
     pub checks: u64,
+    pub faults: u64,
     pub violations: Vec<Violation>,
     pub outcomes: std::collections::BTreeSet<&'static str>,
 }
@@ -1003,11 +1081,203 @@ struct Job {
     /// second steps are explored only after these first steps (None: after all)
     second_after: Option<Vec<IOp>>,
     label: &'static str,
+    /// position in the deterministic job list (containment records)
+    id: u32,
+    /// 0 = differential, 1 = fault injection
+    mode: u8,
+    /// records of sequences that killed or stalled an earlier attempt: not executed, reported
+    skips: std::sync::Arc<Vec<(String, String)>>,
+}
+
+fn code(op: IOp) -> [u8; 3] {
+    match op {
+        IOp::Insert(k, s) => [0, k as u8, s as u8],
+        IOp::TryInsert(k, s) => [1, k as u8, s as u8],
+        IOp::Get(k) => [2, k as u8, 0],
+        IOp::GetEntry(k) => [3, k as u8, 0],
+        IOp::Peek(k) => [4, k as u8, 0],
+        IOp::PeekEntry(k) => [5, k as u8, 0],
+        IOp::Contains(k) => [6, k as u8, 0],
+        IOp::Touch(k) => [7, k as u8, 0],
+        IOp::Remove(k) => [8, k as u8, 0],
+        IOp::RemoveEntry(k) => [9, k as u8, 0],
+        IOp::Mutate(k, s) => [10, k as u8, s as u8],
+        IOp::GetLru => [11, 0, 0],
+        IOp::PeekLru => [12, 0, 0],
+        IOp::PeekMru => [13, 0, 0],
+        IOp::RemoveLru => [14, 0, 0],
+        IOp::RemoveMru => [15, 0, 0],
+        IOp::SetMax(i) => [16, i, 0],
+        IOp::Retain(i) => [17, i, 0],
+        IOp::Reserve => [18, 0, 0],
+        IOp::TryReserve => [19, 0, 0],
+        IOp::ShrinkToFit => [20, 0, 0],
+        IOp::ShrinkTo0 => [21, 0, 0],
+        IOp::Clear => [22, 0, 0],
+        IOp::CloneSwap => [23, 0, 0],
+        IOp::CloneFrom(t) => [24, t, 0],
+        IOp::Drain(x) => [25, x, 0],
+        IOp::DrainForget(n) => [26, n, 0],
+        IOp::Owning(a, b) => [27, a, b],
+    }
+}
+
+fn uncode(c: &[u8]) -> Option<IOp> {
+    let (k, s) = (c[1] as u32, c[2] as usize);
+    Some(match c[0] {
+        0 => IOp::Insert(k, s),
+        1 => IOp::TryInsert(k, s),
+        2 => IOp::Get(k),
+        3 => IOp::GetEntry(k),
+        4 => IOp::Peek(k),
+        5 => IOp::PeekEntry(k),
+        6 => IOp::Contains(k),
+        7 => IOp::Touch(k),
+        8 => IOp::Remove(k),
+        9 => IOp::RemoveEntry(k),
+        10 => IOp::Mutate(k, s),
+        11 => IOp::GetLru,
+        12 => IOp::PeekLru,
+        13 => IOp::PeekMru,
+        14 => IOp::RemoveLru,
+        15 => IOp::RemoveMru,
+        16 => IOp::SetMax(c[1]),
+        17 => IOp::Retain(c[1]),
+        18 => IOp::Reserve,
+        19 => IOp::TryReserve,
+        20 => IOp::ShrinkToFit,
+        21 => IOp::ShrinkTo0,
+        22 => IOp::Clear,
+        23 => IOp::CloneSwap,
+        24 => IOp::CloneFrom(c[1]),
+        25 => IOp::Drain(c[1]),
+        26 => IOp::DrainForget(c[1]),
+        27 => IOp::Owning(c[1], c[2]),
+        _ => return None,
+    })
+}
+
+/// record layout: [mode, fault kind, fault idx lo, fault idx hi, name len, name.., label len, label.., hk, tight, 3 bytes per operation of prefix ++ [255,0,0] ++ sequence]
+fn record(job: &Job, name: &str, seq: &[IOp], fault: Option<(Cb, u32)>) -> Vec<u8> {
+    let mut v = Vec::with_capacity(16 + name.len() + 3 * (job.prefix.len() + seq.len() + 1));
+    v.push(job.mode);
+    v.push(fault.map(|f| f.0 as u8).unwrap_or(255));
+    let idx = fault.map(|f| f.1).unwrap_or(0) as u16;
+    v.extend_from_slice(&idx.to_le_bytes());
+    let name = &name.as_bytes()[..name.len().min(120)];
+    v.push(name.len() as u8);
+    v.extend_from_slice(name);
+    v.push(job.label.len() as u8);
+    v.extend_from_slice(job.label.as_bytes());
+    v.push(job.hk as u8);
+    v.push((job.limit == 0) as u8);
+    for op in job.prefix.iter().take(40) {
+        v.extend_from_slice(&code(*op));
+    }
+    v.extend_from_slice(&[255, 0, 0]);
+    for op in seq {
+        v.extend_from_slice(&code(*op));
+    }
+    v
+}
+
+/// Human-readable form of a containment record (for the driver's log and the violation text).
+pub fn describe_raw(job_id: u64, b: &[u8]) -> Vec<String> {
+    let mut out = vec![];
+    let mut i = 4usize;
+    let get = |i: &mut usize| -> String {
+        let n = b.get(*i).copied().unwrap_or(0) as usize;
+        let s = String::from_utf8_lossy(b.get(*i + 1..*i + 1 + n).unwrap_or(&[])).to_string();
+        *i += 1 + n;
+        s
+    };
+    let name = get(&mut i);
+    let label = get(&mut i);
+    let hk = b.get(i).copied().unwrap_or(0);
+    let tight = b.get(i + 1).copied().unwrap_or(0);
+    i += 2;
+    let mut prefix = vec![];
+    let mut seq = vec![];
+    let mut in_seq = false;
+    while i + 3 <= b.len() {
+        if b[i] == 255 {
+            in_seq = true;
+        } else if let Some(op) = uncode(&b[i..i + 3]) {
+            if in_seq {
+                seq.push(op)
+            } else {
+                prefix.push(op)
+            }
+        }
+        i += 3;
+    }
+    out.push(format!("instantiation-variant job #{job_id}: {name}, hasher kind {hk}, {}", if tight == 1 { "limit exactly the current size after the prefix" } else { "limit usize::MAX" }));
+    if !prefix.is_empty() {
+        out.push(format!("prefix {label}{}: {prefix:?}", if prefix.len() == 40 { " (first 40 steps)" } else { "" }));
+    }
+    out.push(format!("sequence: {seq:?}"));
+    if b.first() == Some(&1) && b.get(1) != Some(&255) {
+        out.push(format!("with a panic injected into callback kind {} invocation #{}", b[1], u16::from_le_bytes([b[2], b[3]])));
+    }
+    out
+}
+
+/// Properties that own a crash / hang recorded in `raw` ("<job>:<hex>"), and its description.
+pub fn owned_by(raw: &str) -> (Props, Vec<String>) {
+    let Some((job, hex)) = raw.split_once(':') else { return (0, vec![]) };
+    let b: Vec<u8> = (0..hex.len() / 2).filter_map(|i| u8::from_str_radix(&hex[2 * i..2 * i + 2], 16).ok()).collect();
+    let mut i = 4usize;
+    for _ in 0..2 {
+        i += 1 + b.get(i).copied().unwrap_or(0) as usize;
+    }
+    i += 2;
+    let mut last = None;
+    let mut forgot = false;
+    while i + 3 <= b.len() {
+        if let Some(op) = uncode(&b[i..i + 3]) {
+            forgot |= matches!(op, IOp::DrainForget(_));
+            last = Some(op);
+        }
+        i += 3;
+    }
+    let mut props = p(6) | p(7) | last.map(owner).unwrap_or(0);
+    if forgot {
+        props |= p(17);
+    }
+    if b.first() == Some(&1) {
+        props = p(16);
+    }
+    (props, describe_raw(job.parse().unwrap_or(0), &b))
+}
+
+fn raw_key(job: &Job, rec: &[u8]) -> String {
+    format!("{}:{}", job.id, rec.iter().map(|b| format!("{b:02x}")).collect::<String>())
+}
+
+/// Publishes what is about to run; returns the reason if an earlier attempt died on exactly this.
+fn announce(job: &Job, name: &str, seq: &[IOp], fault: Option<(Cb, u32)>) -> Option<String> {
+    let rec = record(job, name, seq, fault);
+    if !job.skips.is_empty() {
+        let k = raw_key(job, &rec);
+        if let Some((_, why)) = job.skips.iter().find(|x| x.0 == k) {
+            return Some(why.clone());
+        }
+    }
+    crate::contain::mark_raw(4, job.id as u64, &rec);
+    None
 }
 
 fn run_seq<T: Inst>(job: &Job, sm: [usize; 5], seq: &[IOp], out: &mut InstResult) {
     reg_reset();
     let last = *seq.last().unwrap();
+    if let Some(why) = announce(job, T::NAME, seq, None) {
+        out.violations.push(Violation {
+            props: owner(last) | p(6) | p(7) | if seq.iter().any(|o| matches!(o, IOp::DrainForget(_))) { p(17) } else { 0 },
+            rule: "C07.crash",
+            detail: format!("{}: {why}", describe_raw(job.id as u64, &record(job, T::NAME, seq, None)).join("; ")),
+        });
+        return;
+    }
     let res = std::panic::catch_unwind(std::panic::AssertUnwindSafe(|| {
         let mut problems: Vec<(Props, &'static str, String)> = vec![];
         let mut run: Run<T> = Run::new(if job.limit == 0 { usize::MAX } else { job.limit }, job.cap, job.hk, sm);
@@ -1109,6 +1379,22 @@ fn run_seq<T: Inst>(job: &Job, sm: [usize; 5], seq: &[IOp], out: &mut InstResult
         if (ks != want_k || vs != want_v) && got_it == want {
             problems.push((p(12), "C12.sequence", format!("keys() yields {ks:?} (expected {want_k:?}), values().rev() yields {vs:?} (expected {want_v:?})")));
         }
+        if got_it == want {
+            let mut it = c.iter();
+            let mut rest: std::collections::VecDeque<(u32, u32)> = want.iter().copied().collect();
+            let mut bad = None;
+            for i in 0..want.len() + 2 {
+                let (a, e) = if i % 2 == 0 { (it.next_back(), rest.pop_back()) } else { (it.next(), rest.pop_front()) };
+                let a = a.map(|(k, v)| (T::kid(k), T::vtag(v)));
+                if a != e {
+                    bad = Some((i, a, e));
+                    break;
+                }
+            }
+            if let Some((i, a, e)) = bad {
+                problems.push((p(12), "C12.sequence", format!("iter() driven alternately from the back and the front: call #{i} yields {a:?}, expected {e:?}")));
+            }
+        }
         let cls = if run.leaky { "inst:leaky" } else { outcome_class(&act) };
         drop(run);
         (problems, cls)
@@ -1209,7 +1495,8 @@ fn run_job<T: Inst>(job: Job) -> InstResult {
 }
 
 /// All instantiations x {constant, spread} hasher x {unbounded, tight} start.
-pub fn explore(depth: usize, ladder: usize, threads: usize) -> InstResult {
+pub fn explore(depth: usize, ladder: usize, threads: usize, skips: &[(String, String)]) -> InstResult {
+    let skips = std::sync::Arc::new(skips.to_vec());
     type JobFn = Box<dyn FnOnce() -> InstResult + Send>;
     let mut jobs: Vec<JobFn> = vec![];
     use IOp::*;
@@ -1227,7 +1514,7 @@ pub fn explore(depth: usize, ladder: usize, threads: usize) -> InstResult {
                 }
                 for (label, prefix) in &prefixes {
                     for (limit, cap) in [(usize::MAX, None), (0usize, Some(3usize))] {
-                        let job = Job { hk, limit, cap, depth, prefix: prefix.clone(), second_after: None, label };
+                        let job = Job { hk, limit, cap, depth, prefix: prefix.clone(), second_after: None, label, id: jobs.len() as u32, mode: 0, skips: skips.clone() };
                         jobs.push(Box::new(move || run_job::<$t>(job)));
                     }
                 }
@@ -1243,6 +1530,9 @@ pub fn explore(depth: usize, ladder: usize, threads: usize) -> InstResult {
                             prefix,
                             second_after: Some(vec![CloneSwap, CloneFrom(0), CloneFrom(1), CloneFrom(2), CloneFrom(3)]),
                             label: "ladder",
+                            id: jobs.len() as u32,
+                            mode: 0,
+                            skips: skips.clone(),
                         };
                         jobs.push(Box::new(move || run_job::<$t>(job)));
                     }
@@ -1259,6 +1549,10 @@ pub fn explore(depth: usize, ladder: usize, threads: usize) -> InstResult {
     add!(UnitKey);
     add!(DefaultHasherView);
     jobs.reverse();
+    run_jobs(jobs, threads)
+}
+
+fn run_jobs(jobs: Vec<Box<dyn FnOnce() -> InstResult + Send>>, threads: usize) -> InstResult {
     let queue = std::sync::Mutex::new(jobs);
     let total = std::sync::Mutex::new(InstResult::default());
     std::thread::scope(|s| {
@@ -1267,10 +1561,12 @@ pub fn explore(depth: usize, ladder: usize, threads: usize) -> InstResult {
                 let j = queue.lock().unwrap().pop();
                 let Some(j) = j else { break };
                 let r = j();
+                crate::contain::idle();
                 let mut t = total.lock().unwrap();
                 t.sequences += r.sequences;
                 t.steps += r.steps;
                 t.checks += r.checks;
+                t.faults += r.faults;
                 t.outcomes.extend(r.outcomes);
                 t.violations.extend(r.violations);
             });
@@ -1279,4 +1575,321 @@ pub fn explore(depth: usize, ladder: usize, threads: usize) -> InstResult {
     let mut t = total.into_inner().unwrap();
     t.violations.sort_by(|a, b| a.detail.len().cmp(&b.detail.len()).then(a.detail.cmp(&b.detail)));
     t
+}
+
+// ---------------------------------------------------------------------------
+// C16 on the other instantiations: a panic injected at every callback index
+// ---------------------------------------------------------------------------
+
+const FAULT_KINDS: [Cb; 9] = [Cb::HashK, Cb::HashQ, Cb::Eq, Cb::CloneK, Cb::CloneV, Cb::HeapK, Cb::HeapV, Cb::MutPre, Cb::Pred];
+
+fn build_run<T: Inst>(job: &Job, sm: [usize; 5], seq: &[IOp]) -> Run<T> {
+    let mut run: Run<T> = Run::new(if job.limit == 0 { usize::MAX } else { job.limit }, job.cap, job.hk, sm);
+    for op in &job.prefix {
+        let _ = run.step(*op);
+    }
+    if job.limit == 0 {
+        let l = if job.prefix.is_empty() { sm[1] + sm[2] } else { run.m.cur() };
+        run.m.limit = l;
+        run.c.set_max_size(l);
+    }
+    for op in seq {
+        let _ = run.step(*op);
+    }
+    run
+}
+
+/// what C16 promises about the state after a panic; None if the cache must not be touched any more
+fn post_fault<T: Inst>(c: &LruCache<T::K, T::V, T::S>, problems: &mut Vec<(&'static str, String)>) -> Option<Vec<(u32, u32)>> {
+    let d = c.verif_dump();
+    let w = match walk(&d) {
+        Ok(w) => w,
+        Err(why) => {
+            problems.push(("postfault.structure", format!("the list/table structure is incoherent: {why}")));
+            return None;
+        }
+    };
+    if w.recorded_sum != d.current_size {
+        problems.push(("C16.recorded-sum", format!("current_size() = {} but the sizes recorded for the remaining entries sum to {}", d.current_size, w.recorded_sum)));
+    }
+    let n = d.items;
+    let fwd: Vec<(u32, u32)> = quiet(|| c.iter().take(n + 2).map(|(k, v)| (T::kid(k), T::vtag(v))).collect());
+    let mut rev: Vec<(u32, u32)> = quiet(|| c.iter().rev().take(n + 2).map(|(k, v)| (T::kid(k), T::vtag(v))).collect());
+    rev.reverse();
+    if fwd != rev || c.len() != fwd.len() {
+        problems.push(("postfault.mirror", format!("forward traversal {fwd:?}, reversed reverse traversal {rev:?}, len() = {}", c.len())));
+    }
+    let mut ids: Vec<u32> = (0..T::NKEYS).collect();
+    for x in &fwd {
+        if !ids.contains(&x.0) {
+            ids.push(x.0);
+        }
+    }
+    for id in ids {
+        let held: Vec<&(u32, u32)> = fwd.iter().filter(|x| x.0 == id).collect();
+        if held.len() > 1 {
+            problems.push(("postfault.duplicate", format!("key {id} is held {} times", held.len())));
+        }
+        let got = quiet(|| T::with_q(id, |q| c.peek_entry(q).map(|(k, v)| (T::kid(k), T::vtag(v)))));
+        if got.as_ref() != held.first().copied() {
+            problems.push(("postfault.lookup", format!("lookup of key {id} finds {got:?} but traversal holds {:?}", held.first())));
+        }
+    }
+    Some(fwd)
+}
+
+const BATTERY: [IOp; 12] = [
+    IOp::Get(0),
+    IOp::Insert(1, 0),
+    IOp::Touch(2),
+    IOp::Mutate(0, 1),
+    IOp::Retain(1),
+    IOp::Insert(0, 1),
+    IOp::RemoveLru,
+    IOp::CloneSwap,
+    IOp::Insert(2, 0),
+    IOp::SetMax(1),
+    IOp::ShrinkToFit,
+    IOp::Clear,
+];
+
+fn fault_seq<T: Inst>(job: &Job, sm: [usize; 5], seq: &[IOp], out: &mut InstResult) {
+    let (before, last) = seq.split_at(seq.len() - 1);
+    let last = last[0];
+    // dry run: how often is each kind of callback reached?
+    reg_reset();
+    set_fuel(None);
+    if announce(job, T::NAME, seq, None).is_some() {
+        return;
+    }
+    let dry = std::panic::catch_unwind(std::panic::AssertUnwindSafe(|| {
+        let mut run = build_run::<T>(job, sm, before);
+        let c0 = counts();
+        let _ = run.step(last);
+        let c1 = counts();
+        (c0, c1)
+    }));
+    let _ = take_reg_violations();
+    let Ok((c0, c1)) = dry else { return };
+    for kind in FAULT_KINDS {
+        let cnt = c1[kind as usize] - c0[kind as usize];
+        for idx in 0..cnt.min(48) {
+            reg_reset();
+            set_fuel(None);
+            if let Some(why) = announce(job, T::NAME, seq, Some((kind, idx))) {
+                out.violations.push(Violation {
+                    props: p(16),
+                    rule: "postfault.crash",
+                    detail: format!("{}: {why}", describe_raw(job.id as u64, &record(job, T::NAME, seq, Some((kind, idx)))).join("; ")),
+                });
+                continue;
+            }
+            let mut problems: Vec<(&'static str, String)> = vec![];
+            let res = std::panic::catch_unwind(std::panic::AssertUnwindSafe(|| {
+                let mut run = build_run::<T>(job, sm, before);
+                let pre: Vec<(u32, u32)> = quiet(|| run.c.iter().map(|(k, v)| (T::kid(k), T::vtag(v))).collect());
+                let pre_max = run.c.max_size();
+                set_fuel(Some((kind, idx)));
+                let stepped = std::panic::catch_unwind(std::panic::AssertUnwindSafe(|| {
+                    let _ = run.step(last);
+                }));
+                let fired = fuel().is_none();
+                set_fuel(None);
+                (run, pre, pre_max, stepped, fired)
+            }));
+            out.checks += 1;
+            out.steps += seq.len() as u64;
+            let (mut run, pre, pre_max, stepped, fired) = match res {
+                Ok(x) => x,
+                Err(_) => continue, // the prefix itself panicked: another sequence's finding
+            };
+            let payload = match stepped {
+                Ok(()) => {
+                    // the index was beyond what the operation itself reaches (harness-side calls were counted)
+                    drop(run);
+                    let _ = take_reg_violations();
+                    continue;
+                }
+                Err(e) => e,
+            };
+            out.outcomes.insert("inst:fault-injected");
+            out.faults += 1;
+            if !fired || payload.downcast_ref::<InjectedPanic>().is_none() {
+                let msg = payload.downcast_ref::<String>().cloned().or_else(|| payload.downcast_ref::<&str>().map(|s| s.to_string())).unwrap_or_else(|| "<other>".into());
+                problems.push(("postfault.foreign-panic", format!("a panic other than the injected one: {msg}")));
+            }
+            let after = post_fault::<T>(&run.c, &mut problems);
+            match after {
+                None => std::mem::forget(run),
+                Some(fwd) => {
+                    if matches!(kind, Cb::MutPre | Cb::Pred) {
+                        if run.c.current_size() > run.c.max_size() {
+                            problems.push(("C16.closure-bound", format!("current_size() = {} > max_size() = {} after a panic in the closure", run.c.current_size(), run.c.max_size())));
+                        }
+                        // nothing but what the predicate already rejected is lost
+                        let rejected: Vec<u32> = match last {
+                            IOp::Retain(i) if i < 3 => {
+                                let masks = [0b101u32, 0b010, 0];
+                                pre.iter().take(idx as usize).filter(|x| masks[i as usize].checked_shr(x.0).unwrap_or(0) & 1 == 0).map(|x| x.0).collect()
+                            }
+                            IOp::Retain(_) => pre.iter().take(idx as usize).skip(1).map(|x| x.0).collect(),
+                            _ => vec![],
+                        };
+                        for x in &pre {
+                            if !fwd.iter().any(|y| y.0 == x.0) && !rejected.contains(&x.0) {
+                                problems.push(("C16.closure-lost", format!("key {} was lost although the predicate had not rejected it (held before: {pre:?}, after: {fwd:?})", x.0)));
+                            }
+                        }
+                        let _ = pre_max;
+                    }
+                    // further use, then drop
+                    let mut alive = true;
+                    for op in BATTERY {
+                        let op = match op {
+                            IOp::Get(k) => IOp::Get(k % T::NKEYS),
+                            IOp::Insert(k, s2) => IOp::Insert(k % T::NKEYS, s2.min(T::VSEL - 1)),
+                            IOp::Touch(k) => IOp::Touch(k % T::NKEYS),
+                            IOp::Mutate(k, s2) => IOp::Mutate(k % T::NKEYS, s2.min(T::VSEL - 1)),
+                            o => o,
+                        };
+                        let r = std::panic::catch_unwind(std::panic::AssertUnwindSafe(|| {
+                            let _ = run.step(op);
+                        }));
+                        if r.is_err() {
+                            problems.push(("postfault.use", format!("{op:?} panicked on the cache that survived the fault")));
+                        }
+                        let d = run.c.verif_dump();
+                        match walk(&d) {
+                            Err(why) => {
+                                problems.push(("postfault.use", format!("after {op:?} on the cache that survived the fault: {why}")));
+                                alive = false;
+                                break;
+                            }
+                            Ok(w) => {
+                                if w.recorded_sum != d.current_size {
+                                    problems.push(("postfault.use", format!("after {op:?} on the cache that survived the fault: current_size() = {} but recorded sizes sum to {}", d.current_size, w.recorded_sum)));
+                                    break;
+                                }
+                            }
+                        }
+                        if r.is_err() {
+                            break;
+                        }
+                    }
+                    if alive {
+                        drop(run);
+                    } else {
+                        std::mem::forget(run);
+                    }
+                }
+            }
+            for r in take_reg_violations() {
+                problems.push(("postfault.registry", r));
+            }
+            for (rule, detail) in problems {
+                if out.violations.len() < 64 {
+                    out.violations.push(Violation {
+                        props: p(16),
+                        rule,
+                        detail: format!(
+                            "{} [{}, {}, capacity {:?}]: after {}{:?}, then {:?} with a panic in invocation #{} of {:?}: {}",
+                            T::NAME,
+                            job.hk.name(),
+                            if job.limit == usize::MAX { "limit usize::MAX" } else { "limit set to exactly the current size after the prefix (empty prefix: one small + one large entry)" },
+                            job.cap,
+                            if job.prefix.is_empty() { String::new() } else { format!("prefix {} = {:?} then ", job.label, job.prefix) },
+                            before,
+                            last,
+                            idx,
+                            kind,
+                            detail
+                        ),
+                    });
+                }
+            }
+        }
+    }
+}
+
+fn fault_job<T: Inst>(job: Job) -> InstResult {
+    let mut out = InstResult::default();
+    let k0 = T::key(0);
+    let small = esize::<T>(&k0, &T::val(0, 0));
+    let large = esize::<T>(&k0, &T::val(0, T::VSEL - 1));
+    let sm = [0, small, large, 2 * large, usize::MAX];
+    let alpha = alphabet::<T>();
+    let job = Job {
+        prefix: job
+            .prefix
+            .iter()
+            .map(|op| match *op {
+                IOp::Insert(k, s) if T::NKEYS < 3 => IOp::Insert(k % T::NKEYS, s.min(T::VSEL - 1)),
+                IOp::Insert(k, s) => IOp::Insert(k, s.min(T::VSEL - 1)),
+                IOp::Remove(k) if T::NKEYS < 3 => IOp::Remove(k % T::NKEYS),
+                o => o,
+            })
+            .collect(),
+        ..job
+    };
+    let mut seq: Vec<IOp> = vec![];
+    fn rec<T: Inst>(job: &Job, sm: [usize; 5], alpha: &[IOp], seq: &mut Vec<IOp>, out: &mut InstResult) {
+        if seq.len() == job.depth {
+            return;
+        }
+        for op in alpha {
+            if matches!(op, IOp::DrainForget(_)) {
+                continue;
+            }
+            seq.push(*op);
+            out.sequences += 1;
+            fault_seq::<T>(job, sm, seq, out);
+            if out.violations.len() < 64 {
+                rec::<T>(job, sm, alpha, seq, out);
+            }
+            seq.pop();
+        }
+    }
+    rec::<T>(&job, sm, &alpha, &mut seq, &mut out);
+    set_fuel(None);
+    out
+}
+
+/// C16: every instantiation x hasher x prefix x {unbounded, exactly full}, every
+/// sequence of <= depth operations, the last one with a panic at every callback index.
+pub fn explore_faults(depth: usize, threads: usize, skips: &[(String, String)]) -> InstResult {
+    let skips = std::sync::Arc::new(skips.to_vec());
+    type JobFn = Box<dyn FnOnce() -> InstResult + Send>;
+    let mut jobs: Vec<JobFn> = vec![];
+    use IOp::*;
+    let prefixes: Vec<(&'static str, Vec<IOp>)> = vec![
+        ("empty", vec![]),
+        ("two entries", vec![Insert(0, 1), Insert(1, 0)]),
+        ("clone of three entries", vec![Insert(0, 1), Insert(1, 0), Insert(2, 1), CloneSwap]),
+        ("tombstone", vec![Insert(0, 0), Insert(1, 1), Remove(0), Insert(2, 0)]),
+        ("full table of 3", vec![Insert(0, 0), Insert(1, 0), Insert(2, 0)]),
+    ];
+    macro_rules! add {
+        ($t:ty) => {
+            for hk in [HK::Const, HK::Spread] {
+                if !<$t as Inst>::COUNTS_HASHES {
+                    continue;
+                }
+                for (label, prefix) in &prefixes {
+                    for (limit, cap) in [(usize::MAX, None), (0usize, Some(3usize))] {
+                        let job = Job { hk, limit, cap, depth, prefix: prefix.clone(), second_after: None, label, id: jobs.len() as u32, mode: 1, skips: skips.clone() };
+                        jobs.push(Box::new(move || fault_job::<$t>(job)));
+                    }
+                }
+            }
+        };
+    }
+    add!(U64View);
+    add!(StringVec);
+    add!(TrackedKeyView);
+    add!(PlainKeyTracked);
+    add!(Aligned);
+    add!(UnitVal);
+    add!(UnitKey);
+    jobs.reverse();
+    run_jobs(jobs, threads)
 }
